@@ -1,7 +1,28 @@
 package main
 
-import "verif/harness/world"
+import (
+	"verif/harness/run"
+	"verif/harness/world"
+)
+
+type evalEvent struct {
+	Ev  string      `json:"ev"`
+	Obs run.EvalObs `json:"obs"`
+}
 
 // runExtraOps is extended per property (exposure, focus, eval, diff, formats, laws).
 func runExtraOps(em *emitter, dir, wdir string, c Case, conc *world.Conc, cseed int64, ops map[string]bool, bin string) {
+	w := c.World
+	if ops["eval"] {
+		em.emit(evalEvent{Ev: "Eval", Obs: run.EvalAPI(wdir, w, conc, cseed, 40)})
+	}
+	onlyPods := len(w.Workloads) > 0
+	for i := range w.Workloads {
+		if w.Workloads[i].Expr == "controller" {
+			onlyPods = false
+		}
+	}
+	if ops["evalcli"] && bin != "" && onlyPods {
+		em.emit(evalEvent{Ev: "Eval", Obs: run.EvalCLI(bin, wdir, w, conc, cseed, 6)})
+	}
 }
